@@ -108,6 +108,9 @@ def run(ctx):
     lean = vlib.lean_check(PKG, THEOREMS[prop], thorough=ctx.thorough, checker_modules=["Neigh.Props"])
     failures = vlib.lean_failures(prop, lean)
     extra = []
+    _ob, _sf = vlib.skeleton_tie(prop, "neigh")
+    extra.append(_ob)
+    failures += _sf
     ctx.log("lean:", "ok" if lean["ok"] else "NOT ok")
 
     ok, binary, blog = vlib.go_build("runeigh")
